@@ -101,13 +101,13 @@ def poisson(
         if slope_max - slope_min <= 1e-12 * max(nx, ny):
             break
 
+    if seed is not None:
+        np.random.set_state(rand_state)
+
     if abs(actual_accel - accel) >= tol:
         raise ValueError(f"Cannot generate mask to satisfy accel={accel}.")
 
     mask = mask.reshape(img_shape).astype(dtype)
-
-    if seed is not None:
-        np.random.set_state(rand_state)
 
     return mask
 
